@@ -9,6 +9,7 @@ EvaluatableData.body; the EvaluatableData itself lives in a ContextVar, as ahbic
 concurrent evaluations.
 """
 
+import contextlib
 import zlib
 from contextvars import ContextVar
 from typing import Any, Dict, List, Optional
@@ -79,6 +80,8 @@ class World:
         self.pkg = pkg or {}
         self.fc_mode = fc_mode
         self.hints_sync = hints_sync
+        self.pkg_tickets: Optional[List[tuple]] = None  # a list: the package resolver answers every look-up with an expression of its own
+        self.data_as_context_manager = False  # True: the EvaluatableDataProvider hands out a context manager (see _provide_data)
         self.shared_lookups = False  # True: all evaluations of one requirement key await ONE shared future (a cached backend look-up)
         self.shared: Dict[str, Any] = {}
         self.log: List[tuple] = []
@@ -109,10 +112,33 @@ def current_world() -> Optional[World]:
     return data.body if data is not None else None
 
 
-def _provide_data() -> EvaluatableData:
+class _Released:
+    """what is left of the evaluatable data after the provider's context was left (a closed session, a released buffer)"""
+
+    def __repr__(self):
+        return "<evaluatable data released by its provider>"
+
+
+RELEASED = _Released()
+
+
+@contextlib.contextmanager
+def _lease(data: EvaluatableData):
+    lease = EvaluatableData(body=data.body, edifact_format=data.edifact_format, edifact_format_version=data.edifact_format_version)
+    try:
+        yield lease
+    finally:
+        lease.body = RELEASED
+
+
+def _provide_data():
+    """plain provider, or - World.data_as_context_manager - a provider that is a context manager (python-inject enters it around the
+    injected call and leaves it afterwards): the data are only good while the function they were injected into is running"""
     data = _data_var.get()
     if data is None:
         raise RuntimeError("harness error: no World set in this context")
+    if getattr(data.body, "data_as_context_manager", False):
+        return _lease(data)
     return data
 
 
@@ -125,11 +151,24 @@ class HarnessRcEvaluator(RcEvaluator):
         return EvaluationContext(scope=None)
 
 
+def _used_after_release(key: str):
+    """the evaluator was handed evaluatable data whose provider context has been left already: a real evaluator would read garbage"""
+    world = current_world()
+    world.anomalies.append(f"the evaluator of key {key} was called with evaluatable data that their provider had already released")
+    world.log.append(("rc-after-release", key, world.id, world.id))
+    return REAL[_ROTATE_EARLY[world.rc[key]]]
+
+
+_ROTATE_EARLY = {"F": "U", "U": "K", "K": "F", "N": "N"}
+
+
 def _make_rc_method(key: str, is_sync: bool):
     if is_sync:
 
         def evaluate(self, evaluatable_data, context):  # pylint:disable=unused-argument
             world: World = evaluatable_data.body
+            if world is RELEASED:
+                return _used_after_release(key)
             seen = current_world()
             world.log.append(("rc", key, world.id, seen.id if seen else None))
             return REAL[world.rc[key]]
@@ -138,6 +177,8 @@ def _make_rc_method(key: str, is_sync: bool):
 
         async def evaluate(self, evaluatable_data, context):  # pylint:disable=unused-argument
             world: World = evaluatable_data.body
+            if world is RELEASED:
+                return _used_after_release(key)
             if world.shared_lookups:
                 fut = world.shared.get(key)
                 if fut is None:
@@ -290,11 +331,16 @@ class HarnessPackageResolver(PackageResolver):
 
     async def get_condition_expression(self, package_key: str) -> PackageKeyConditionExpressionMapping:
         world = current_world()
+        ticket = None
+        if world.pkg_tickets is not None:
+            # every look-up is answered with an expression of its own ([7001], [7002], ... in call order): the answers are
+            # distinguishable, so it can be checked that each one ends up in the tree exactly once
+            ticket = 7001 + len(world.pkg_tickets)
+            world.pkg_tickets.append((package_key, ticket))
         await sched.point(("pkg", package_key, world.id))
         world.log.append(("pkg", package_key, world.id))
-        return PackageKeyConditionExpressionMapping(
-            package_key=package_key, package_expression=world.pkg.get(package_key), edifact_format=FORMAT
-        )
+        expression = world.pkg.get(package_key) if ticket is None else f"[{ticket}]"
+        return PackageKeyConditionExpressionMapping(package_key=package_key, package_expression=expression, edifact_format=FORMAT)
 
 
 class HarnessTokenLogicProvider(TokenLogicProvider):
@@ -355,6 +401,9 @@ _cer_var: ContextVar = ContextVar("vf_content_evaluation_result", default=None)
 _CER_TLP = None
 
 
+NO_PACKAGE_TABLE = object()  # make_cer(packages=NO_PACKAGE_TABLE): the result carries no package table at all (the model's default, None)
+
+
 def make_cer(rc: Dict[str, str], fc: Dict[str, bool], hints: Dict[str, Optional[str]], fc_msg: Optional[Dict[str, Optional[str]]] = None, packages: Optional[Dict[str, str]] = None):
     from ahbicht.models.content_evaluation_result import ContentEvaluationResult
 
@@ -362,12 +411,16 @@ def make_cer(rc: Dict[str, str], fc: Dict[str, bool], hints: Dict[str, Optional[
         hints=dict(hints),
         format_constraints={k: EvaluatedFormatConstraint(format_constraint_fulfilled=v, error_message=(fc_msg or {}).get(k) if not v else None) for k, v in fc.items()},
         requirement_constraints={k: REAL[v] for k, v in rc.items()},
-        packages=dict(packages or {}),
+        packages=None if packages is NO_PACKAGE_TABLE else dict(packages or {}),
     )
 
 
 _LONG_LIVED_DATA = EvaluatableData(body={}, edifact_format=FORMAT, edifact_format_version=VERSION)
 LONG_LIVED = [False]  # True: ONE EvaluatableData object for the whole process whose body is updated in place from message to message
+
+
+def _recase(key: str, state: str) -> str:
+    return (state.upper, state.lower, state.capitalize)[zlib.crc32(key.encode()) % 3]()
 
 
 def _provide_cer_data() -> EvaluatableData:
@@ -378,7 +431,10 @@ def _provide_cer_data() -> EvaluatableData:
         raise RuntimeError("harness error: no content evaluation result set in this context")
     if LONG_LIVED[0]:
         return _LONG_LIVED_DATA
-    return EvaluatableData(body=ContentEvaluationResultSchema().dump(cer), edifact_format=FORMAT, edifact_format_version=VERSION)
+    body = ContentEvaluationResultSchema().dump(cer)
+    # the states are spelled as a hand-written / foreign JSON body may spell them (the schema reads them case-insensitively)
+    body["requirement_constraints"] = {k: _recase(k, v) for k, v in body["requirement_constraints"].items()}
+    return EvaluatableData(body=body, edifact_format=FORMAT, edifact_format_version=VERSION)
 
 
 def install_hardcoded(cer, data_format=None, data_version=None) -> None:
